@@ -9,3 +9,5 @@ if [ ! -x .venv/bin/python ]; then
   echo "import site; site.addsitedir('/venv/lib/python3.12/site-packages')" > .venv/lib/python3.12/site-packages/zz_venv.pth
 fi
 PYTHONPATH=/repo MPLBACKEND=Agg .venv/bin/python -c "import z3, numpy, verif; print('pyvc setup ok', z3.get_version_string(), numpy.__version__)"
+# reduction lemmas (Lean 4 + Mathlib): compile once, verdict cached by file hash
+PYTHONPATH=/repo:"$here" MPLBACKEND=Agg .venv/bin/python -m pyvc.leancheck
